@@ -94,7 +94,7 @@ def cases(draw, subject, lengths):
         return case
     elif subject == "fn:over-sparse":
         # a movement function reading a series that is mostly missing (the sparse signal above)
-        case["cfg"] = {"over_sparse": draw(st.sampled_from(("highest", "lowest", "rising", "falling", "mean_rising", "value_range", "highestbar"))), "kw": {"length": draw(st.integers(2, 6)), "factor": draw(st.sampled_from((3, 100)))}}
+        case["cfg"] = {"over_sparse": draw(st.sampled_from(("highest", "lowest", "rising", "falling", "mean_rising", "value_range", "highestbar", "cross", "crossover", "crossunder"))), "kw": {"length": draw(st.integers(2, 6)), "factor": draw(st.sampled_from((3, 100)))}}
         return case
     else:
         cfg = _cap(draw(gc.config(subject)))
@@ -164,7 +164,10 @@ def _build(case, n):
 
         kw = case["cfg"]["kw"]
         sparse = Amorph(analysis=sparse_signal, factor=kw["factor"])
-        over = Amorph(analysis=MOVEMENT_MAP[case["cfg"]["over_sparse"]], indicator="sparse_signal", length=kw["length"])
+        if case["cfg"]["over_sparse"].startswith("cross"):  # one side of the comparison is mostly missing
+            over = Amorph(analysis=MOVEMENT_MAP[case["cfg"]["over_sparse"]], indicator_one="sparse_signal", indicator_two="close", length=kw["length"])
+        else:
+            over = Amorph(analysis=MOVEMENT_MAP[case["cfg"]["over_sparse"]], indicator="sparse_signal", length=kw["length"])
         obj = Hexital("c07", hist, [sparse, over], **({"timeframe": case["tf"]} if case.get("tf") else {}))
     elif "custom" in case["cfg"]:
         obj = Amorph(analysis=sparse_signal, candles=hist, **case["cfg"]["kw"], **({"timeframe": case["tf"]} if case.get("tf") else {}))
